@@ -15,8 +15,8 @@ m = {
  "engines": [
   {"name": "vcheck", "path": "harness", "serves_properties": ["C%02d" % i for i in range(1, 20)],
    "kind_free_text": "Rust binary (proptest 1.11 TestRunner from a binary, 16 lanes, fixed seeds, shrinking): tape-driven sprite/plan/mutation generators built by construction, model+encoder with field map, explicit oracles per property, isolated worker processes with a counting/denying allocator, C++ Aseprite blend reference linked via cc"},
-  {"name": "libfuzzer", "path": "harness/fuzz", "serves_properties": ["C04", "C05"],
-   "kind_free_text": "cargo-fuzz targets used only by thorough tiers (coverage-guided, oracle inside the target)"}
+  {"name": "libfuzzer", "path": "harness/fuzz", "serves_properties": ["C01", "C02", "C04", "C05", "C06", "C07", "C08", "C09", "C10", "C11", "C15", "C18", "C19"],
+   "kind_free_text": "cargo-fuzz targets used only by thorough tiers (coverage-guided, oracle inside the target): bytes_load_use and structured_load_use (C04/C05: load + exercise), tape_props (the tape-driven semantic properties: input = generator tape, the property's own generator and oracle run in the target; artifacts are re-judged and shrunk by vcheck)"}
  ],
  "checks": [],
  "not_applicable": [],
@@ -26,25 +26,27 @@ P = {
  "C01": ("exploration", "Generated (sprite model, encoding plan) pairs are encoded by the harness's own writer, loaded, and every structural accessor is compared with the model's projection. Held on everything generated; no absence claim.", "Trusts the harness encoder's reading of the Aseprite file specification; layer flags compared on the 7 defined bits only.", "property-based testing: model round-trip (proptest tape generator + independent encoder, shrinking)"),
  "C02": ("exploration", "Generated layer stacks are rendered and compared with a bottom-to-top fold of a two-layer blend obtained from the library through probe sprites; isolates stacking, visibility, clipping, indexing, opacity product and link/tilemap resolution from blend arithmetic.", "The two-layer full-canvas blend is taken from the library (its arithmetic is C03/C17's subject); transparent pixels compare equal regardless of RGB.", "property-based testing: metamorphic/differential oracle (fold of library probe renders vs Frame::image)"),
  "C03": ("exploration", "Bit-exact differential against Aseprite's C++ blend functions over channel-exhaustive squares, HSL grids, random and boundary-biased tuples; thorough tier exhausts the (b,s,Ba,Sa) space per separable mode at full opacity.", "Reference = verbatim excerpts kept in the repository + transcription of upstream blend_funcs.cpp, re-validated on every run against the 20 Aseprite-exported blend PNGs; opacity<255 paths rest on the verbatim wrapper code.", "differential testing against a C++ reference over enumerated and generated inputs (bounded exhaustive + random)"),
- "C04": ("exploration", "Hostile inputs (model tweaks, boundary-value field patches, structural edits, truncations, bit flips), exhaustive single-field sweeps and stress shapes are loaded in isolated workers on 2 MiB threads with overflow checks and debug assertions; any panic, process death or absurd reservation is a violation.", "Hangs are only observed as a watchdog event (inconclusive). 'dev0' (unoptimised) build is exercised by C16's differential, not here.", "fuzzing/property-based testing: field-directed corruption sweeps + generated hostile files + libFuzzer (thorough), crash/abort oracle in isolated workers"),
+ "C04": ("exploration", "Hostile inputs (model tweaks, boundary-value field patches, structural edits, truncations, bit flips), exhaustive single-field sweeps and stress shapes are loaded in isolated workers on 2 MiB threads with overflow checks and debug assertions; any panic, process death or absurd reservation is a violation.", "A load that burns >= 20 s of CPU without returning is reported as a violation (no-return rule); a mere wall-clock timeout is inconclusive. A pass of the corpus also runs on the 'dev0' build (library at opt-level 0).", "fuzzing/property-based testing: field-directed corruption sweeps + generated hostile files + libFuzzer (thorough), crash/abort oracle in isolated workers"),
  "C05": ("exploration", "Every input of the C04 corpus that loads is followed by a seeded permutation of every public accessor with in-range arguments; panics, process deaths and undocumented image dimensions are violations.", "Work guard skips rendering above stated pixel budgets; out-of-range arguments never used.", "fuzzing/property-based testing: load-then-exercise oracle over corrupted-but-accepted inputs"),
  "C06": ("exploration", "Cel accessors and images are compared with a direct formula written from the statement (no blend code) over all pixel formats, palettes, transparent indices, background flags, storage kinds, offsets, opacities and link targets.", "Transparent pixels compare equal regardless of RGB.", "property-based testing: reference-model oracle"),
  "C07": ("exploration", "One model, two independently drawn vectors of neutral encoding choices; both must load and be observed identically through the whole API.", "Only equivalences listed in the statement are varied.", "property-based testing: metamorphic relation over encodings"),
- "C08": ("exploration", "Tilemap size/offsets/lookups are compared with the model, and tilemap image, tile images and the stacked tileset image are related to each other pixel by pixel.", "Cells with flip/rotate bits are excluded from the image relation only.", "property-based testing: relational + model oracle"),
+ "C08": ("exploration", "Tilemap size/offsets/lookups are compared with the model, and tilemap image, tile images and the stacked tileset image are related to each other pixel by pixel (also for linked cels on tilemap layers where a reader accepts them).", "Cells with flip/rotate bits are excluded from the image relation only.", "property-based testing: relational + model oracle"),
  "C09": ("exploration", "Every forest of up to 8 layers (quick) / 10 layers (thorough) times every visible-flag assignment is enumerated; parents, visibility and frame pixels are compared with a model; plus random forests and deep chains.", "Bounded exhaustive sub-space stated in evidence; beyond it random sampling.", "bounded exhaustive enumeration + property-based testing against a model"),
- "C10": ("exploration", "Every valid chunk word up to length 6 (quick) / 7 (thorough) over the 13-symbol alphabet is enumerated and a context state machine written from the statement predicts every entity's record; plus random long words.", "One tags chunk per file, layers in frame 0 (conformance side conditions).", "bounded exhaustive enumeration + model-based (state machine) testing"),
+ "C10": ("exploration", "Every valid chunk word up to length 6 (quick) / 7 (thorough) over the 13-symbol alphabet is enumerated and a context state machine written from the statement predicts every entity's record; plus random long words.", "Up to three tags chunks per word (a reader may keep all tags or the last chunk's; each reported tag must carry its own record), tags chunks and layers in frame 0 (conformance side conditions).", "bounded exhaustive enumeration + model-based (state machine) testing"),
  "C11": ("exploration", "Generated new/legacy palette chunks in both orders are decoded and compared with a model; indexed sprites with missing palette or out-of-palette pixel indices (cel or tileset) must fail to load.", "6-bit scaling is pinned only at 0 and 63, strictly increasing, within 2/255 of linear.", "property-based testing: reference-model oracle with negative cases"),
  "C12": ("exploration", "Counting global allocator in deny mode around AsepriteFile::read: live bytes never exceed 64 MiB + 8192 x bytes delivered, over inflation sweeps of every size/count field, deflate bombs and table-amplification shapes.", "A universally quantified bound is only sampled; realloc counted by delta.", "fuzzing/property-based testing with an allocator-level invariant oracle"),
  "C13": ("fault_enumeration", "Every cut offset (every crash point) of every generated well-formed file and of the golden files is loaded and must be rejected.", "Files above 64 KiB are sampled at chunk boundaries +-8 and 2000 seeded offsets.", "exhaustive fault-point enumeration over generated files"),
  "C14": ("fault_enumeration", "Generated files x >= 40 read schedules (short reads, Interrupted bursts, BufReader capacities, real file) must give the in-memory observation; a hard I/O error injected at every byte offset must come back as the IoError variant carrying the injected error as source.", "Quick tier: 2 error kinds per file; thorough: 8.", "fault injection: exhaustive error offsets x generated reader schedules"),
  "C15": ("exploration", "For generated bases, every unsupported feature is switched on at every position where it can occur; the base must load and every variant must be refused.", "Refusal class is not checked (statement fixes refusal only).", "property-based testing: exhaustive per-position feature injection on generated bases"),
- "C16": ("exploration", "Generated API call lists are evaluated in order, permuted, repeated, concurrently from 2..16 threads and on a second load; three builds of the library (opt3+checks, opt3, opt0+checks) must observe a seeded corpus identically; Send+Sync is instantiated in a separate crate.", "Thread schedule is not controlled; the Send+Sync clause is decided by the compiler.", "property-based testing over call histories + cross-profile differential + compile-time trait assertion"),
+ "C16": ("exploration", "Generated API call lists are evaluated in order, permuted, repeated, concurrently from 2..16 threads and on a second load; four builds of the library (opt3+checks, opt3, opt0+checks, without the utils feature) and a run without a log backend must observe a seeded corpus identically; fresh processes in which 16 threads load the same file as their first action must agree with a single-threaded load; Send+Sync is instantiated in a separate crate.", "Thread schedule is not controlled; the Send+Sync clause is decided by the compiler.", "property-based testing over call histories + cross-profile differential + compile-time trait assertion"),
  "C17": ("exploration", "Mode-independent alpha and identity laws are checked per tuple on the C03 enumerations, with overflow checks and debug assertions enabled.", "Normal-mode alpha is taken from a sibling Normal render by the library.", "property-based testing: algebraic laws over enumerated and generated tuples"),
  "C18": ("exploration", "Generated images, palettes (loaded from generated files), mapping options and queries are checked against the documented behaviour of extrude_border, PaletteMapper::lookup and to_indexed_image.", "Mixed occurrences (<256 and >=256) accept either answer the statement allows.", "property-based testing: reference-model oracle"),
  "C19": ("exploration", "For every frame and layer of generated sprites (and golden files) the three cel routes are compared field by field and by image; single-visible-layer frames equal the cel image; tilemap image equals its cel image.", "Transparent pixels compare equal regardless of RGB.", "property-based testing: relational oracle"),
 }
 for pid in sorted(P):
     level, text, note, tech = P[pid]
+    if pid in ("C01", "C02", "C06", "C07", "C08", "C09", "C10", "C11", "C15", "C18", "C19"):
+        tech += "; thorough tier adds coverage-guided fuzzing (libFuzzer) over generator tapes with the same oracle"
     m["checks"].append({
         "property_id": pid,
         "quick_cmd": f"./check.sh {pid} quick",
